@@ -133,6 +133,27 @@ struct StaticCastOverflowImpl<Source, Dest, OverflowSituation::SIGNED_TO_SIGNED>
     }
 };
 
+// Whether a floating point value lies above every value of `Dest`.
+//
+// For a floating point `Dest`, we simply compare against its maximum.
+template <typename Source, typename Dest, bool IsDestIntegral>
+struct ExceedsUpperLimitOfDest {
+    static constexpr bool value(Source x) {
+        return x > static_cast<Source>(std::numeric_limits<Dest>::max());
+    }
+};
+
+// For an integral `Dest`, the maximum is `2^N - 1`, which `Source` may not be able to represent: it
+// can round up to `2^N`, which is already out of range.  So we also compare against `2^N` itself,
+// which every floating point type can represent exactly.
+template <typename Source, typename Dest>
+struct ExceedsUpperLimitOfDest<Source, Dest, true> {
+    static constexpr bool value(Source x) {
+        return (x > static_cast<Source>(std::numeric_limits<Dest>::max())) ||
+               (x >= static_cast<Source>(std::numeric_limits<Dest>::max() / 2 + 1) * Source{2});
+    }
+};
+
 template <typename Source, typename Dest>
 struct StaticCastOverflowImpl<Source, Dest, OverflowSituation::FLOAT_TO_ANYTHING> {
     static constexpr bool will_static_cast_overflow(Source x) {
@@ -140,7 +161,7 @@ struct StaticCastOverflowImpl<Source, Dest, OverflowSituation::FLOAT_TO_ANYTHING
         // this would have been categorized as `DEST_BOUNDS_CONTAIN_SOURCE_BOUNDS` rather than
         // `FLOAT_TO_ANYTHING`.
         return (x < static_cast<Source>(std::numeric_limits<Dest>::lowest())) ||
-               (x > static_cast<Source>(std::numeric_limits<Dest>::max()));
+               ExceedsUpperLimitOfDest<Source, Dest, std::is_integral<Dest>::value>::value(x);
     }
 };
 
